@@ -6,7 +6,8 @@
 (*   dataKind : "absent" | "null" | "object" | "other"                     *)
 (*   errors   : sequence of [msg (length of the message), pathKinds        *)
 (*              (sequence of "str" | "nat" | "neg" | "other"), key (last   *)
-(*              string of the path or ""), locs (sequence of [line, col])] *)
+(*              string of the path or ""), locs (sequence of [line, col]), *)
+(*              words (words of the message, language keywords left out)]   *)
 (*   errorsKind : "absent" | "list" | "other"                              *)
 (*   rejected : the specification (Sem) refuses the request as a whole     *)
 (*   json     : [mode -> accepted by a JSON parser and equal after decoding]*)
@@ -44,10 +45,15 @@ LocationOK(r, e) ==
   LET starts == LexStarts(r.lex)
       lens == LineLens(r.lex, 1, <<0>>)
       keyLines == {starts[k].line : k \in {k \in DOMAIN r.lex : r.lex[k].key # "" /\ r.lex[k].key = e.key}}
+      \* an error without a path (a request refused as a whole) that names tokens of the document - a directive, an
+      \* argument, a variable, a type condition - is located on a line where one of them stands
+      named == {k \in DOMAIN r.lex : r.lex[k].key # "" /\ r.lex[k].key \in Range(e.words)}
+      nameLines == {starts[k].line : k \in named}
   IN \A k \in DOMAIN e.locs :
        /\ e.locs[k].line \in 1..Len(lens)
        /\ e.locs[k].col <= lens[e.locs[k].line] + 2
        /\ (e.key # "" /\ keyLines # {}) => e.locs[k].line \in keyLines
+       /\ (e.key = "" /\ nameLines # {}) => e.locs[k].line \in nameLines
 
 WellFormed(r) ==
   [ keys     |-> Range(r.keys) \subseteq {"data", "errors"} /\ Range(r.keys) # {},
